@@ -200,6 +200,58 @@ func (c *Ctx) contraIdx2(rule string, info *types.Info, owner string, body *ast.
 			default:
 				continue
 			}
+			// after the loop: the guard may have failed on this very conjunct, leaving the counter
+			// one step past the bound (only when the body moves it down)
+			decrements := false
+			for _, s := range f.Body.List {
+				if x, ok := s.(*ast.IncDecStmt); ok && identObj(info, x.X) == o && x.Tok == token.DEC {
+					decrements = true
+				}
+			}
+			if decrements && lb-1 < 0 {
+				if st := stackTo(body, f); len(st) >= 2 {
+					var list []ast.Stmt
+					switch b := st[len(st)-2].(type) {
+					case *ast.BlockStmt:
+						list = b.List
+					case *ast.CaseClause:
+						list = b.Body
+					}
+					after := false
+					for _, s := range list {
+						if s == ast.Stmt(f) {
+							after = true
+							continue
+						}
+						if !after {
+							continue
+						}
+						if is, ok := s.(*ast.IfStmt); ok && mentions(info, is.Cond, o) {
+							break // re-tested
+						}
+						if assignedObjs(info, s)[o] {
+							break
+						}
+						stop := false
+						ast.Inspect(s, func(q ast.Node) bool {
+							ix, ok := q.(*ast.IndexExpr)
+							if !ok || identObj(info, ix.Index) != o {
+								return true
+							}
+							if _, isMap := info.TypeOf(ix.X).Underlying().(*types.Map); isMap {
+								return true
+							}
+							n++
+							stop = true
+							c.Violation(rule, fmt.Sprintf("%s/%s[%s]-after-loop", owner, c.src(ix.X), o.Name()), ix.Pos(), fmt.Sprintf("the loop above stops when `%s` fails, i.e. possibly with %s == %d, and `%s[%s]` is evaluated right after it without another test: index out of range (e.g. on a line made only of blanks)", c.src(e), o.Name(), lb-1, c.src(ix.X), o.Name())).Clause = clause
+							return false
+						})
+						if stop {
+							break
+						}
+					}
+				}
+			}
 			known := true
 			for _, s := range f.Body.List {
 				if !known {
